@@ -3,7 +3,7 @@ import re
 
 from .lib import PLUMBING, callee_allow, callers, closure_args_of_call, operand_local
 from .lib_c01 import (PRE_FIX_F3_EDITS, VALUE_PRESERVING, Renamed, access_path, bool_switch_of_call, conflict_loop, enum_switches,
-                      resolve_path, version_param)
+                      norm_path, resolve_path, sources, version_param)
 from .lib_c01 import edge_is_rejecting as edge_rejects
 
 LEVEL = "other"
@@ -87,7 +87,7 @@ def r1_request_wiring(ctx):
               "path argument is %r of %r of %r (only Into<InputPath> in between: %s)" % (pp, ru, rq2, not extra), (hb, lbb))
     # version
     pv = access_path(hb, a_ver, VP + TRYQ)
-    okv = pv.is_call(r"VersionPolicy::request_version$") and pv.path == ["as Continue", "0"]
+    okv = pv.is_call(r"VersionPolicy::request_version$") and pv.npath() == ["+", "0"]        # `x?`, match, let-else alike
     rq3 = None
     if okv:
         rq3 = access_path(hb, pv.call()[2]["args"][1], VP)
@@ -112,7 +112,7 @@ def r1_request_wiring(ctx):
         tag = "spawned" if g is not hb else "inline"
         # receiver
         f1, ph = resolve_path(ctx.ds, g, t["args"][0], VP + TRYQ, stop_at=hb)
-        okh = f1 is hb and ph.is_call(r"HttpRouter::<Context>::lookup_route$") and ph.path == ["as Continue", "0", "handler"] and ph.call()[1] == lbb
+        okh = f1 is hb and ph.is_call(r"HttpRouter::<Context>::lookup_route$") and ph.npath() == ["+", "0", "handler"] and ph.call()[1] == lbb
         ctx.check(R, "handler-is-lookup_result.handler:%s" % tag, okh, "handle_request receiver is %r" % ph, (g, bb))
         # context
         f2, pc = resolve_path(ctx.ds, g, t["args"][1], VP, stop_at=hb)
@@ -120,7 +120,7 @@ def r1_request_wiring(ctx):
         pe = None
         if f2 is hb and pc.kind() == "agg" and pc.root[2].get("adt") == "handler::RequestContext" and not pc.path:
             pe = access_path(hb, pc.root[2]["ops"][eidx], VP + TRYQ)
-            oke = pe.is_call(r"HttpRouter::<Context>::lookup_route$") and pe.path == ["as Continue", "0", "endpoint"] and pe.call()[1] == lbb
+            oke = pe.is_call(r"HttpRouter::<Context>::lookup_route$") and pe.npath() == ["+", "0", "endpoint"] and pe.call()[1] == lbb
         ctx.check(R, "context-endpoint-is-lookup_result.endpoint:%s" % tag, oke, "RequestContext.endpoint is %r (context value: %r)" % (pe, pc), (g, bb))
         # request
         f3, prq = resolve_path(ctx.ds, g, t["args"][2], VP, stop_at=hb)
@@ -180,11 +180,14 @@ def r2_one_endpoint(ctx):
     fbb = list(find_sites)[0]
     ft = lr.blocks[fbb]["term"]
     # answer only on the Some edge of that selection
-    sw = [(sbb, info) for sbb, info, tg in enum_switches(lr, r"^std::option::Option$") if info["place"]["l"] == ft["dest"]["l"] and not info["place"]["p"]]
+    sw = []
+    for sbb, info, tg in enum_switches(lr, r"^std::option::Option$"):
+        q = access_path(lr, info["place"], VP)        # the selection itself or a let-bound copy of it
+        if q.call() and q.call()[2] is ft and not q.path:
+            sw.append((sbb, info))
     oks = False
-    if len(sw) == 1:
-        sbb, info = sw[0]
-        oks = lr.edge_dominates(sbb, lr.switch_target(sbb, 1), obb)
+    if sw:
+        oks = any(lr.edge_dominates(sbb, lr.switch_target(sbb, 1), obb) for sbb, info in sw)
     ctx.check(R, "answer-only-when-selection-is-Some", oks, "Ok(..) is dominated by the Some edge of the selection: %s" % oks, (lr, obb))
     # version argument
     vp = version_param(lr)
@@ -201,9 +204,10 @@ def r2_one_endpoint(ctx):
         pg = access_path(lr, gets[0][2]["args"][0], VP)
         okg = pg.kind() == "local" and pg.root[1] == node_local and pg.path == ["methods"]
     bad = callee_allow(hs, PLUMBING + [r"BTreeMap::<K, V, A>::get$", r"Option::<T>::map$", r"Option::<T>::unwrap_or$", r"Option::<T>::unwrap_or_default$",
-                                      r"Option::<T>::map_or$", r"Option::<T>::into_iter$", r"iter::Iterator::flatten$", r"iter::IntoIterator::into_iter$"])
+                                      r"Option::<T>::map_or$", r"Option::<T>::into_iter$", r"iter::Iterator::flatten$", r"iter::IntoIterator::into_iter$",
+                                      r"vec::Vec::<T, A>::as_slice$", r"Option::<T>::map_or_else$", r"Option::<T>::unwrap_or_else$"])
     okc = True
-    for bb, t in lr.live_calls(r"Option::<T>::(map|map_or)$"):
+    for bb, t in lr.live_calls(r"Option::<T>::(map|map_or|map_or_else|unwrap_or_else)$"):
         if t["dest"]["l"] in hs.locals():
             for h, node in closure_args_of_call(lr, t):
                 rs = h.slice({"l": 0, "p": []})
@@ -241,23 +245,34 @@ def _variables_local(lr):
 
 # --------------------------------------------------------------------------- R3
 def _segment_nexts(lr):
-    """Iterator::next calls on the request-segment iterator: (outer, [inner...]) by dominance; the
-    iterator is the one built by into_iter(<segments from input_path_to_segments>)."""
+    """Iterator::next calls on the request-segment iterator: (outer, [inner...], iterator local) by dominance; the
+    iterator is the one built by into_iter(<segments from input_path_to_segments>), whatever it is called and
+    however the Result of input_path_to_segments was split (`?`, match, let-else)."""
     cands = []
     thru = VP + TRYQ + [r"iter::IntoIterator::into_iter$", r"iter::Iterator::by_ref$", r"Result::<T, E>::map_err$"]
     for bb, t in lr.live_calls(r"iter::Iterator::next$"):
         pr = access_path(lr, t["args"][0], thru)
-        if pr.is_call(r"^router::input_path_to_segments$") and pr.path == ["as Continue", "0"] and any(c.endswith("into_iter") for c in pr.call_names()):
-            cands.append((bb, t, pr.root[1]))
+        if pr.is_call(r"^router::input_path_to_segments$") and pr.npath() == ["+", "0"] and any(c.endswith("into_iter") for c in pr.call_names()):
+            cands.append((bb, t, _iterator_local(lr, t["args"][0])))
     if not cands:
         return None, [], None
-    roots = set(c[2] for c in cands)
-    if len(roots) != 1:
+    its = set(c[2] for c in cands)
+    if len(its) != 1 or None in its:
         return None, [], None
     outer = [c for c in cands if all(lr.dominates(c[0], d[0]) for d in cands)]
     if len(outer) != 1:
         return None, [], None
-    return outer[0], [c for c in cands if c is not outer[0]], list(roots)[0]
+    return outer[0], [c for c in cands if c is not outer[0]], list(its)[0]
+
+
+def _iterator_local(lr, op):
+    """Identity of the iterator that `op` (`&mut it`, `it.by_ref()`, `(&mut it).into_iter()` of a for loop, reborrows)
+    refers to: the site of the into_iter call that built it from the collection, plus where the collection lives."""
+    p = access_path(lr, op, [r"iter::Iterator::by_ref$", r"ops::DerefMut::deref_mut$", r"iter::IntoIterator::into_iter$"])
+    made = [bb for c, bb in p.calls if c.endswith("into_iter")]
+    if not made or [c for c, bb in p.calls if not re.search(r"into_iter$|by_ref$|deref_mut$", c)]:
+        return None
+    return (made[-1], p.root[0], p.root_local(), tuple(p.path))
 
 
 def _is_segment(lr, p, next_bb):
@@ -275,7 +290,7 @@ def _some_edge(lr, call_t):
 
 def _vec_contributions(lr, rest_op):
     """What goes into the Vec handed to VariableValue::Components: the `next` sites whose payload is
-    the seed or is pushed, plus anything else that writes to the vector (reported as foreign)."""
+    the seed or is pushed, whole-iterator appends (`extend`), plus anything else that writes to the vector (reported as foreign)."""
     pr = access_path(lr, rest_op, VP)
     seed = lr.slice(rest_op, stop_at_calls=r"iter::Iterator::next$")
     seed_bad = callee_allow(seed, PLUMBING + [r"boxed::box_assume_init_into_vec_unsafe$", r"boxed::Box::<T>::new_uninit$", r"slice::<impl \[T\]>::into_vec$",
@@ -283,7 +298,7 @@ def _vec_contributions(lr, rest_op):
                                               r"alloc::exchange_malloc$", r"boxed::Box::<T>::write$", r"mem::MaybeUninit"])
     seeds = [bb for c, bb, t in seed.calls(r"iter::Iterator::next$")]
     root = pr.root_local()
-    pushes, foreign = [], [b[0] for b in seed_bad]
+    pushes, extends, foreign = [], [], [b[0] for b in seed_bad]
     for bb, t in lr.live_calls():
         if not t["args"] or t is (pr.call() or [None, None, None])[2]:
             continue
@@ -293,11 +308,13 @@ def _vec_contributions(lr, rest_op):
         c = t.get("callee") or ""
         if re.search(r"vec::Vec::<T, A>::push$", c):
             pushes.append((bb, t))
+        elif re.search(r"iter::Extend::extend$", c) and len(t["args"]) == 2:
+            extends.append((bb, t))
         elif re.search(r"Deref::deref$|vec::Vec::<T, A>::(len|is_empty|capacity|reserve)$", c):
             pass
         else:
             foreign.append(c)
-    return pr, seeds, pushes, foreign
+    return pr, seeds, pushes, extends, foreign
 
 
 def r3_walk_integrity(ctx):
@@ -382,9 +399,11 @@ def r3_walk_integrity(ctx):
     vr = var_arm("VariableRest", "Components")
     if vr:
         bb, t, pv = vr
-        pr, seeds, pushes, foreign = _vec_contributions(lr, pv.root[2]["ops"][0])
+        pr, seeds, pushes, extends, foreign = _vec_contributions(lr, pv.root[2]["ops"][0])
         ctx.check(R, "VariableRest:seeded-with-current-segment", seeds == [obb] and not foreign,
                   "the wildcard's vector is built from next() site(s) %s (want exactly the walk's current segment); foreign writers/callees: %s" % (len(seeds), foreign), (lr, bb))
+        # the rest of the list: (a) a loop `while let Some(s) = it.next() { rest.push(s) }` that runs until the walk's iterator is exhausted, or
+        # (b) `rest.extend(it.by_ref())`, which appends every remaining item in order (std Extend for Vec) - `it` being the walk's own iterator
         okp = len(pushes) >= 1
         dd = []
         exhaust = False
@@ -392,65 +411,64 @@ def r3_walk_integrity(ctx):
             pa = access_path(lr, pt["args"][1], VP)
             inner_ok = pa.is_call(r"iter::Iterator::next$") and pa.path == ["as Some", "0"] and not pa.calls and \
                 any(pa.call()[1] == ib for ib, _, _ in inners)
-            dd.append(repr(pa))
+            dd.append("push(%r)" % pa)
             okp = okp and inner_ok
             if inner_ok:
                 ie = _some_edge(lr, pa.call()[2])
                 if ie and lr.edge_dominates(ie[0], ie[1], pbb) and lr.edge_dominates(ie[0], ie[2], bb) and obb not in lr.reachable(ie[1], avoid=[pa.call()[1]]):
                     exhaust = True
-        ctx.check(R, "VariableRest:every-remaining-segment-pushed-in-order", okp and exhaust,
-                  "push(..) arguments: %s; from the same iterator as the walk; the binding happens only after that iterator returned None: %s" % (dd, exhaust), (lr, bb))
-    # --- child selected per arm and the cursor update
-    for kind in ("VariableSingle", "VariableRest"):
-        inarm = arm(kind)
-        somes = [(b, st) for b, i, st in lr.aggregates(r"^std::option::Option$", "Some") if inarm(b)]
-        okc = len(somes) == 1
-        pc = None
-        if okc:
-            pc = access_path(lr, somes[0][1]["rv"]["ops"][0], VP)
-            okc = pc.root_local() == node and pc.path == ["edges", "as Some", "0", "as " + kind, "1"] and not pc.calls
-            child_defs[kind] = ("some", somes[0][0], somes[0][1])
-        ctx.check(R, "%s:descends-to-the-edge's-child" % kind, okc, "arm result is Some(%r)" % pc, (lr, somes[0][0]) if somes else lr)
-    # node assignments census
-    ndefs = lr.defs().get(node, [])
+        oke = False
+        if len(extends) == 1 and not pushes:
+            ebb, et = extends[0]
+            same_it = _iterator_local(lr, et["args"][1]) == it_local and it_local is not None
+            oke = same_it and lr.dominates(ebb, bb) and obb not in lr.reachable(ebb, avoid=[bb])
+            dd.append("extend(<the walk's iterator>: %s)" % same_it)
+        ctx.check(R, "VariableRest:every-remaining-segment-pushed-in-order", (okp and exhaust and not extends) or oke,
+                  "appended after the seed: %s; from the same iterator as the walk; the binding happens only after that iterator was exhausted: %s" % (dd, exhaust or oke), (lr, bb))
+    # --- the value `node` advances to: every definition of the cursor, with every value it may receive (a `let next = match ..` result,
+    # an Option unwrapped by `ok_or_else(..)?`, by a match or by let-else are all followed to the arm values)
+    thru = VP + TRYQ + [r"Option::<T>::ok_or_else$", r"Option::<T>::ok_or$"]
     cats = {"root": 0, "loop": 0, "trailing": 0, "other": []}
     trailing_bbs = []
-    res_local = None
-    for bb, k, n in ndefs:
+    arm_children = {}
+    stray = []
+    for bb, k, n in lr.defs().get(node, []):
         if k != "assign" or n["pl"]["p"]:
             cats["other"].append("bb-def:%s" % k)
             continue
         rv = n["rv"]
-        p = access_path(lr, rv.get("op") or rv.get("pl"), VP + TRYQ + [r"Option::<T>::ok_or_else$", r"Option::<T>::ok_or$"])
-        if p.kind() == "param" and p.root[1] == 1 and p.path == ["root"]:
+        srcs = sources(lr, rv.get("op") or rv.get("pl"), thru, stop={node})
+        if len(srcs) == 1 and srcs[0].kind() == "param" and srcs[0].root[1] == 1 and srcs[0].path == ["root"]:
             cats["root"] += 1
-        elif p.kind() == "local" and p.path == ["as Continue", "0"] and lr.edge_dominates(osw, o_some, bb):
+        elif lr.edge_dominates(osw, o_some, bb):
             cats["loop"] += 1
-            res_local = p.root[1]
-        elif p.root_local() == node and p.path == ["edges", "as Some", "0", "as VariableRest", "1"] and lr.edge_dominates(osw, o_none, bb):
+            for p in srcs:
+                kind = None
+                if p.is_call(r"BTreeMap::<K, V, A>::get$") and p.npath() == ["+", "0"] and child_defs.get("Literals") and p.call()[2] is child_defs["Literals"][2]:
+                    kind = "Literals"
+                elif p.root_local() == node and p.kind() == "local" and len(p.path) == 5 and p.npath()[:3] == ["edges", "+", "0"] and p.path[4] == "1" and \
+                        p.path[3] in ("as VariableSingle", "as VariableRest") and not [c for c in p.call_names() if not re.search(r"Try::branch$|ok_or_else$|ok_or$|Deref::deref$", c)]:
+                    kind = p.path[3][3:]
+                if kind is None:
+                    stray.append(repr(p))
+                else:
+                    arm_children.setdefault(kind, []).append(p)
+        elif len(srcs) == 1 and srcs[0].root_local() == node and srcs[0].npath() == ["edges", "+", "0", "as VariableRest", "1"] and lr.edge_dominates(osw, o_none, bb):
             cats["trailing"] += 1
             trailing_bbs.append(bb)
         else:
-            cats["other"].append(repr(p))
-    ctx.check(R, "node-cursor-assignments", cats["root"] == 1 and cats["loop"] == 1 and cats["trailing"] == 1 and not cats["other"],
-              "`node` is assigned: self.root x%d, the matched arm's child (through ok_or_else(..)?) x%d, the trailing wildcard's child x%d, anything else: %s"
+            cats["other"].append(", ".join(repr(p) for p in srcs))
+    for kind in ("VariableSingle", "VariableRest"):
+        inarm = arm(kind)
+        ps = arm_children.get(kind, [])
+        # the value is produced inside its own arm: every multi-definition hop on the way lies in the arm (or the projection itself is only valid there)
+        okc = len(ps) == 1 and all(inarm(hb) for _l, hb in ps[0].hops)
+        ctx.check(R, "%s:descends-to-the-edge's-child" % kind, okc, "in this arm the cursor advances to %s" % (ps or "nothing"), lr)
+    ctx.check(R, "node-cursor-assignments", cats["root"] == 1 and cats["loop"] >= 1 and cats["trailing"] == 1 and not cats["other"],
+              "`node` is assigned: self.root x%d, the matched arm's child x%d, the trailing wildcard's child x%d, anything else: %s"
               % (cats["root"], cats["loop"], cats["trailing"], cats["other"]), lr)
-    if res_local is not None:
-        # every definition of the arm-result local is one of the arm children found above or None
-        okd = True
-        seen = []
-        for bb, k, n in lr.defs().get(res_local, []):
-            if k == "call" and child_defs.get("Literals") and n is child_defs["Literals"][2]:
-                seen.append("Literals")
-            elif k == "assign" and n["rv"]["rv"] == "agg" and n["rv"].get("variant") == "None":
-                seen.append("None")
-            elif k == "assign" and any(v[0] == "some" and v[2] is n for v in child_defs.values()):
-                seen.append([kk for kk, v in child_defs.items() if v[0] == "some" and v[2] is n][0])
-            else:
-                okd = False
-                seen.append("?bb-def")
-        ctx.check(R, "arm-result-definitions", okd and sorted(seen) == sorted(["Literals", "None", "VariableSingle", "VariableRest"]),
-                  "the value `node` advances to is defined by: %s" % sorted(seen), lr)
+    ctx.check(R, "arm-result-definitions", not stray and sorted(arm_children) == ["Literals", "VariableRest", "VariableSingle"] and all(len(v) == 1 for v in arm_children.values()),
+              "inside the walk the cursor can only receive: %s; anything else: %s" % (sorted("%s child" % k for k in arm_children), stray), lr)
     # --- trailing wildcard
     tsbb, tinfo, ttargets = after[0]
     tp = access_path(lr, tinfo["place"], VP)
@@ -464,8 +482,8 @@ def r3_walk_integrity(ctx):
         pk = access_path(lr, t["args"][1], VP)
         pv = access_path(lr, t["args"][2], VP)
         if pv.kind() == "agg" and pv.root[2].get("variant") == "Components":
-            pr, seeds, pushes, foreign = _vec_contributions(lr, pv.root[2]["ops"][0])
-            okt = pk.root_local() == node and pk.path == ["edges", "as Some", "0", "as VariableRest", "0"] and not seeds and not pushes and not foreign
+            pr, seeds, pushes, extends, foreign = _vec_contributions(lr, pv.root[2]["ops"][0])
+            okt = pk.root_local() == node and pk.path == ["edges", "as Some", "0", "as VariableRest", "0"] and not seeds and not pushes and not extends and not foreign
             d = "variables[%r] = Components(%r) with %d seeded / %d pushed elements" % (pk, pr, len(seeds), len(pushes))
     same_target = ttargets.get("Literals") == ttargets.get("VariableSingle") and ttargets.get("Literals") != tt
     ctx.check(R, "trailing-wildcard-binds-empty-list", okt and not others_bind and same_target,
